@@ -19,6 +19,10 @@ def run(ctx):
                      "model-checking question outside static analysis.")
     ctx.floor = 12
     P = ctx.prog
+    p2 = ctx.anchor(DKG + "part2")
+    if p2:
+        # a contribution made for a run with another threshold is refused when it is received
+        c08.peer_threshold_check(ctx, p2, "peer-commitment-length==own-threshold")
     p3 = ctx.anchor(DKG + "part3")
     if p3:
         v = FnView.get(P, p3)
